@@ -125,14 +125,14 @@ RewardsEffect(rw, fs) ==
     /\ UNCHANGED <<desc, orc, prune, nodes, prob, rstrat, res, ro, hist>>
 Rewards(rw, fs) ==
     /\ pc = "conditioned"
-    /\ ro.ok                                 \* otherwise the iteration may diverge
+    /\ ro.stop                               \* otherwise the iteration may diverge
     /\ RewardClauses(ro, rw) = {}
     /\ FStratClauses(desc, ro, rstrat, fs) = {}
     /\ RewardsEffect(rw, fs)
 
 \* outside the stopping domain the reward iteration need not terminate
 Diverge ==
-    /\ pc = "conditioned" /\ ~ro.ok
+    /\ pc = "conditioned" /\ ~ro.stop
     /\ pc' = "diverged"
     /\ UNCHANGED <<desc, orc, prune, nodes, prob, rstrat, rew, fstrat, res, ro, hist>>
 
